@@ -322,7 +322,6 @@ package bcl
 //@   requires [C17] called_on_the_identifier_token: p.hadError || p.prev.typ != tSEMICOLON
 //@   ensures [C17] no_terminator_inside_an_expression: p.hadError || p.prev.typ != tSEMICOLON
 //@   assert [C17,C01] assignment_is_right_associative: at expr.parsePrecedence#1: $prec == precAssign
-//@   assert [C17,C01] the_assigned_value_is_a_full_expression: at parsePrecedence#1: $prec == precAssign
 //@   requires at_boundary: p.hadError || g.pend == F0()
 //@   ensures one_value: p.hadError || (g.sd == old(g.sd) + 1 && g.pend == F0() && g.njopen == old(g.njopen) && g.bd == old(g.bd) && g.uninit == old(g.uninit))
 //@   ensures jframe: forall o int :: o < old(len(p.prog.code)) ==> select(g.jopen, o) == old(select(g.jopen, o)) && select(g.jd, o) == old(select(g.jd, o))
